@@ -204,7 +204,38 @@ class Runner:
         self._base[key] = res
         return res
 
+    def run_sub(self, case):
+        """`tackler init` / `tackler new <name>` with a subset of their destinations already present: the sub-commands
+        write files too (a configuration and journal files), so 'an existing file is never overwritten' covers them"""
+        self.n += 1
+        cdir = os.path.join(self.ws, "runs", "sub-%d-%d" % (os.getpid(), self.n))
+        os.makedirs(cdir)
+        try:
+            root = os.path.join(cdir, "books") if case["cmd"] == "new" else cdir
+            pre = case.get("existing", [])
+            if case["cmd"] == "new" and pre:
+                os.makedirs(root)
+            for d in pre:
+                if d in ("conf", "txns"):
+                    os.makedirs(os.path.join(root, d), exist_ok=True)
+                    names = {"conf": ["tackler.toml", "accounts.toml"], "txns": ["journal.txn", "welcome.txn", "price.db", "mine.txn"]}[d]
+                    for nme in names:
+                        with open(os.path.join(root, d, nme), "wb") as f:
+                            f.write(b"; mine, keep\n" + marker(17))
+            before = snapshot([cdir])
+            args = [common.TK_CLI] + (["new", "books"] if case["cmd"] == "new" else ["init"])
+            p = subprocess.run(args, stdout=subprocess.PIPE, stderr=subprocess.PIPE, timeout=60, cwd=cdir)
+            after = snapshot([cdir])
+            changed = sorted(os.path.relpath(k, cdir) for k in before if not k.endswith("/") and after.get(k) != before[k])
+            created = sorted(os.path.relpath(k, cdir) for k in after if k not in before and not k.endswith("/"))
+            return {"r": "OK", "rc": p.returncode, "changed": changed, "created": created,
+                    "stdout": p.stdout.decode("utf-8", "replace")[-300:], "stderr": p.stderr.decode("utf-8", "replace")[-300:]}
+        finally:
+            shutil.rmtree(cdir, ignore_errors=True)
+
     def run_case(self, case):
+        if case.get("op") == "sub":
+            return self.run_sub(case)
         self.n += 1
         jname, inp, mode = case["journal"], case["input"], case.get("mode", "files")
         probe = make_probe(self.ws, jname)
@@ -415,9 +446,16 @@ class C14(PropBase):
                 "exports": list(exports), "existing": existing or [], "limit": limit, "mode": mode,
                 "chunk_seed": rng.randrange(1 << 30)}
 
+    def gen_sub(self):
+        out = []
+        for cmd in ("init", "new"):
+            for pre in ([], ["conf"], ["txns"], ["conf", "txns"]) + ((["dir"],) if cmd == "new" else ()):
+                out.append({"op": "sub", "kind": "sub:%s:%s" % (cmd, "+".join(pre) or "fresh"), "cmd": cmd, "existing": list(pre)})
+        return out
+
     def gen(self, rng, tier, focus=None):
         quick = tier != "thorough"
-        out = []
+        out = self.gen_sub()
         sz = {(j, i): self.sizes(j, i) for j in JOURNALS for i in INPUTS}
 
         # 1. one destination at a time (the limit is aimed at it): offset sweep
@@ -576,13 +614,14 @@ class C14(PropBase):
 
     def run_impl(self, impl_cases):
         res = [None] * len(impl_cases)
-        cli_idx = [i for i, c in enumerate(impl_cases) if c.get("op") == "out"]
-        lib_idx = [i for i, c in enumerate(impl_cases) if c.get("op") != "out"]
+        cli_idx = [i for i, c in enumerate(impl_cases) if c.get("op") in ("out", "sub")]
+        lib_idx = [i for i, c in enumerate(impl_cases) if c.get("op") not in ("out", "sub")]
         if cli_idx:
             ws = self.ws()
             # baselines first (single process), then the sweep in single-threaded worker processes
             for c in (impl_cases[i] for i in cli_idx):
-                self.runner().baseline(c["journal"], c["input"])
+                if c.get("op") == "out":
+                    self.runner().baseline(c["journal"], c["input"])
             jobs = int(os.environ.get("VERIF_JOBS", "0")) or min(8, common.NCPU)
             # interleave so that the shards have similar cost
             order = sorted(cli_idx, key=lambda i: (i % jobs, i))
@@ -628,6 +667,20 @@ class C14(PropBase):
         op = case.get("op")
         if impl.get("r") != "OK":
             return {"sig": "runner:%s" % impl.get("r"), "what": "case could not be run: %s" % str(impl)[:300]}
+        if op == "sub":
+            pre = case.get("existing", [])
+            if impl["changed"]:
+                return {"sig": "sub-overwrites:%s" % case["cmd"], "what": "`tackler %s` with %s already present changed existing files %s (exit %s)" % (
+                    case["cmd"], pre or "nothing", impl["changed"], impl["rc"])}
+            if pre and impl["rc"] == 0:
+                return {"sig": "sub-success-over-existing:%s" % case["cmd"], "what": "`tackler %s` succeeded although %s existed; created %s" % (
+                    case["cmd"], pre, impl["created"])}
+            if pre and impl["created"]:
+                return {"sig": "sub-partial:%s" % case["cmd"], "what": "`tackler %s` failed over existing %s but created %s" % (case["cmd"], pre, impl["created"])}
+            if not pre and (impl["rc"] != 0 or len(impl["created"]) < 7):
+                return {"sig": "sub-fresh-fails:%s" % case["cmd"], "what": "`tackler %s` in a fresh directory: exit %s, created %s: %s" % (
+                    case["cmd"], impl["rc"], impl["created"], impl["stderr"])}
+            return None
         if op == "wfail":
             self.remember({k: v for k, v in case.items() if k != "text"})
             if impl["bad"]:
